@@ -3,7 +3,7 @@
 const path = require('path')
 const { encodeMap } = require('./smap')
 
-const SITE_KINDS = ['body', 'operand', 'multiline', 'double', 'arrow', 'method', 'eval', 'evalfn', 'callback', 'msg-newline', 'throw', 'helper', 'msg-at']
+const SITE_KINDS = ['body', 'operand', 'multiline', 'double', 'arrow', 'method', 'eval', 'evalfn', 'msg-loc', 'callback', 'msg-newline', 'throw', 'helper', 'msg-at']
 
 // returns {text, sites:[{k, kind, fn, line, cbLine?}], kind, omap?}
 function genVersion (rng, fi, vi, kind, o) {
@@ -17,6 +17,12 @@ function genVersion (rng, fi, vi, kind, o) {
   add('function keep (a, b) { return b }')
   const mkErrLine = add('function mkErr (m) { return new Error(m) }')
   add('function keep2 (a, b) { return [a, b] }')
+  if (o.lookalikeLine) {
+    // a multi-line template literal whose text has a line that looks like a reference comment
+    add('const bannerTemplate = `')
+    add('//# sourceMappingURL=not-a-real-reference.js.map')
+    add('`')
+  }
   const nSites = rng.range(2, 6)
   let kinds = []
   for (let i = 0; i < nSites; i++) {
@@ -58,6 +64,15 @@ function genVersion (rng, fi, vi, kind, o) {
         add('}')
         site.entry = `${N}c`
         site.line = 0
+        break
+      }
+      case 'msg-loc': {
+        // the message is supplied by the caller (it will embed this very frame's raw location)
+        add(`function ${N} (x, cb, msg) {`)
+        add(plain ? '  const s = x' : "  const s = x + 'l'")
+        site.line = add("  const e = new Error(msg || 'first call')")
+        add('  return e')
+        add('}')
         break
       }
       case 'operand': {
@@ -142,8 +157,10 @@ function genVersion (rng, fi, vi, kind, o) {
   add(`module.exports = { ${[...new Set(exportsList)].join(', ')} }`)
   const v = { kind, sites, text: '', fi, vi }
   if (kind === 'syntaxerr') {
-    lines.splice(rng.range(1, lines.length - 1), 0, 'function broken ( { return 1 +; }')
-    for (const s of sites) { s.line = 0 }
+    // at top level, after everything else (never inside a template literal): the file does not parse
+    rng.range(1, lines.length - 1)
+    lines.splice(lines.length - 2, 0, 'function broken ( { return 1 +; }')
+    for (const s of sites) { s.line = 0; s.cbLine = 0; s.line2 = 0 }
   }
   // original map O (the file is "transpiler output"): line L -> original line g(L), any column
   if (o.omap && kind !== 'syntaxerr') {
